@@ -13,7 +13,8 @@
      (P_C05_msb.smear_all: the smear ladder yields the run of ones up to the top bit; findMSB = log2; findLSB = trailing zeros).
      gtx highestBitValue (the loop that clears the lowest set bit), powerOfTwoAbove / Below / Nearest for every positive value, and findNSB for every
      value and count (binary search over bit counts: window invariant) -- P_C18_pow2, P_C18_nsb.
-   NOT theorems (correspondence + oracle only): sqrt on 32-bit values beyond the range above; floating ceil/floor/roundMultiple beyond the dyadic grid model.
+   sqrt on EVERY 32-bit value: partial correctness only (C18_sqrt_int/uint_partial: the result is floor(sqrt x) whenever the model's 64-iteration fuel suffices).
+   NOT theorems (correspondence + oracle only): that 64 iterations suffice for sqrt beyond the range above; floating ceil/floor/roundMultiple beyond the dyadic grid model.
    Refuted statements = known findings (known_findings.txt): the rotations' direction, roundMultiple,
    floor/roundPowerOfTwo of negative values, roundPowerOfTwo on 8/16-bit types above the top power, pow(x<0, 0),
    bitfieldFillOne/Zero on 64-bit values. *)
@@ -149,6 +150,11 @@ Theorem C18_factorial_32 : forallb (fun n => (factorial true 32 (Z.of_nat n) =? 
 Proof. exact P_C18_w8.factorial_32. Qed.
 Theorem C18_factorial_64 : forallb (fun n => (factorial true 64 (Z.of_nat n) =? fact n) && (factorial false 64 (Z.of_nat n) =? fact n)) (seq 0 21) = true.
 Proof. exact P_C18_w8.factorial_64. Qed.
+(* every 32-bit value: if the Newton loop leaves within the model's fuel (result <> -2) the result is floor(sqrt x); see P_C18_general *)
+Theorem C18_sqrt_int_partial : forall x, in_T true 32 x = true -> 0 <= x -> sqrt_int x = -2 \/ sqrt_int x = Z.sqrt x.
+Proof. exact P_C18_general.sqrt_int_partial. Qed.
+Theorem C18_sqrt_uint_partial : forall x, in_T false 32 x = true -> sqrt_uint x = -2 \/ sqrt_uint x = Z.sqrt x.
+Proof. exact P_C18_general.sqrt_uint_partial. Qed.
 (* every width, every n whose factorial is a value of T (unbounded statement; the two sweeps above are its instances) *)
 Theorem C18_factorial_all : forall sg w n, 0 < w -> (n <= 199)%nat -> in_T sg w (fact n) = true -> factorial sg w (Z.of_nat n) = fact n.
 Proof. exact P_C18_general.factorial_correct. Qed.
@@ -173,6 +179,8 @@ Print Assumptions C18_16bit_all_values.
 Print Assumptions C18_fillOne_every_value.
 Print Assumptions C18_mod_int.
 Print Assumptions C18_factorial_all.
+Print Assumptions C18_sqrt_int_partial.
+Print Assumptions C18_sqrt_uint_partial.
 Print Assumptions C18_ceilPowerOfTwo_every_positive_value.
 Print Assumptions C18_roundPowerOfTwo_every_positive_value.
 Print Assumptions C18_lowestBitValue_every_nonzero_value.
